@@ -254,7 +254,7 @@ func (v *VM) exec() {
 		case codeSlice:
 			r, a, b := v.stack[len(v.stack)-3], v.stack[len(v.stack)-2], v.stack[len(v.stack)-1]
 			i, j := a.Int(), b.Int()
-			if j < 0 {
+			if j < 0 && b.t == untypedInt {
 				j += 1 + r.Len()
 			}
 			v.stack = v.stack[:len(v.stack)-2]
